@@ -16,7 +16,13 @@
    time.Local points to at the moment of the call").  User values
    held in interfaces (marshalers, errors, Stringers, reflected values) are
    opaque records carrying exactly the attributes Go's == and
-   reflect.DeepEqual depend on. *)
+   reflect.DeepEqual depend on.  An error value additionally carries
+   everything an encoder can learn from it ([einfo]): not only what Error()
+   returns, but whether calling Error() panics (on a nil pointer or otherwise),
+   what %+v prints when the dynamic type is a fmt.Formatter, and the member
+   errors when it is an error group (Errors() []error) -- so that "the encoder
+   is handed the caller's error" and "the encoder is handed something that
+   merely forwards Error()" are different observations. *)
 From Coq Require Import List ZArith Bool Lia String.
 From Coq.Strings Require Import Byte.
 Import ListNotations.
@@ -92,13 +98,27 @@ Fixpoint gty_eqb (a b : gty) : bool :=
   end.
 
 (* ---------- values ---------- *)
+(* What an error value exposes (zapcore.encodeError looks at all of it):
+     EMsg m v c   Error() returns m; v = Some t: the dynamic type implements fmt.Formatter and
+                  fmt.Sprintf("%+v", err) = t; c = Some l: it implements Errors() []error (an error group,
+                  go.uber.org/multierr style) and that method returns l (None = a nil member)
+     ENilPanic    the value is a nil pointer and calling Error() on it panics (value receiver)
+     EPanic p     calling Error() panics with a value that prints (%v) as p, and the error is not a nil pointer *)
+Inductive einfo :=
+| EMsg (msg : bytes) (verbose : option bytes) (causes : option (list (option einfo)))
+| ENilPanic
+| EPanic (p : bytes).
+
+(* an error with nothing but a message; also the [oerr] of a value that is not an error at all *)
+Definition eplain (m : bytes) : einfo := EMsg m None None.
+
 Record opq := { oty : Z;        (* dynamic type identity *)
                 oaddr : Z;      (* identity of the referenced object for pointer/map/slice kinds, 0 for value kinds *)
                 ocontent : Z;   (* content class: equal iff structurally equal *)
                 ocmp : bool;    (* the dynamic type is comparable (== does not panic) *)
                 oself : bool;   (* the content equals itself (no NaN / func inside) *)
                 ostr : bytes;   (* what String() returns (oracle shipped with the case) *)
-                oerr : bytes }. (* what Error() returns *)
+                oerr : einfo }. (* what the value exposes as an error (eplain [] for a non-error) *)
 
 Record timev := { tinst : Z; tloc : Z }.
 Definition loc_utc : Z := 0.
@@ -350,6 +370,57 @@ Definition elem_env (loc : Z) (a i : Z) (x : val) : env :=
   {| e_var := VNil; e_int := 0; e_str := []; e_ifc := VNil; e_elem := x; e_stack := []; e_saddr := a; e_idx := i;
      e_local := loc |}.
 
+(* ---------- errors ---------- *)
+(* zapcore.encodeError(key, err, enc) (zapcore/error.go): the calls it makes on enc and the error it
+   returns (None = nil; Some t = an error whose Error() is t).
+     - err.Error() is called under a recover: a panic on a nil pointer adds the string "<nil>", any
+       other panic p becomes the returned error "PANIC=p" (nothing added);
+     - the message is added under key;
+     - an error group adds, under key+"Causes", the array of its non-nil members, each as an object
+       that is encodeError("error", member); a member whose encoding returns an error ends the array
+       (the object is appended with what it got so far) and that error is returned;
+     - otherwise a fmt.Formatter whose %+v differs from the message adds it under key+"Verbose". *)
+(* the loop of zapcore's errArray over the members of a group: [f] encodes one member into a fresh
+   object encoder; nil members are skipped; the object is appended; a member whose encoding returns
+   an error ends the loop with that error *)
+Definition members (f : einfo -> list call * option bytes) : list (option einfo) -> list call * option bytes :=
+  fix go (l : list (option einfo)) : list call * option bytes :=
+    match l with
+    | [] => ([], None)
+    | None :: r => go r
+    | Some x :: r =>
+        let q := f x in
+        match snd q with
+        | Some t => ([(($"AppendObject"), [], VCalls (fst q))], Some t)
+        | None => let q' := go r in ((($"AppendObject"), [], VCalls (fst q)) :: fst q', snd q')
+        end
+    end.
+
+Fixpoint enc_error (k : bytes) (e : einfo) : list call * option bytes :=
+  match e with
+  | ENilPanic => ([(($"AddString"), k, VStr ($"<nil>"))], None)
+  | EPanic p => ([], Some (($"PANIC=") ++ p))
+  | EMsg m v c =>
+      match c with
+      | Some l =>
+          let r := members (fun x => enc_error ($"error") x) l in
+          ([(($"AddString"), k, VStr m); (($"AddArray"), k ++ ($"Causes"), VCalls (fst r))], snd r)
+      | None =>
+          match v with
+          | Some t => if bytes_eqb t m then ([(($"AddString"), k, VStr m)], None)
+                      else ([(($"AddString"), k, VStr m); (($"AddString"), k ++ ($"Verbose"), VStr t)], None)
+          | None => ([(($"AddString"), k, VStr m)], None)
+          end
+      end
+  end.
+
+(* `err = encodeError(f.Key, e, enc)` followed by AddTo's epilogue
+   `if err != nil { enc.AddString(fmt.Sprintf("%sError", f.Key), err.Error()) }` (the translator checks
+   the epilogue's text): everything an ErrorType field with key k and payload e adds *)
+Definition error_calls (k : bytes) (e : einfo) : list call :=
+  let q := enc_error k e in
+  fst q ++ match snd q with Some t => [(($"AddString"), k ++ ($"Error"), VStr t)] | None => [] end.
+
 (* MarshalLogArray / MarshalLogObject of a zap-internal wrapper type, on the no-error path
    (the recording encoder never fails): what one element of the loop does, then the loop *)
 Definition loop1 (loc : Z) (addto : field -> option (list call)) (l : loop) (a i : Z) (x : val) : option (list call) :=
@@ -359,7 +430,7 @@ Definition loop1 (loc : Z) (addto : field -> option (list call)) (l : loop) (a i
   | LErrs k =>
       match x with
       | VNil => Some []
-      | VOpq o => Some [(($"AppendObject"), [], VCalls [(($"AddString"), bs k, VStr (oerr o))])]
+      | VOpq o => Some [(($"AppendObject"), [], VCalls (error_calls (bs k) (oerr o)))]
       | _ => None
       end
   | LFields =>
@@ -412,7 +483,7 @@ Fixpoint run_arm (T : tables) (loc : Z) (addto : field -> option (list call)) (a
       end
   | AError e =>
       match eval r e with
-      | Some (VOpq o) => Some [(($"AddString"), f_key f, VStr (oerr o))]
+      | Some (VOpq o) => Some (error_calls (f_key f) (oerr o))
       | _ => None
       end
   | ASkip => Some []
